@@ -159,7 +159,7 @@ Definition record_obs (b d1 d2 : url) : c07_obs :=
   let nb := normalize b in
   let nr := normalize d1 in
   mkObs (to_text b) (to_text n1) (to_text n1) (to_text b) (to_text n2)
-        (to_text nb) (to_text (normalize nb)) (to_text nr) (to_text (normalize nr)) (to_text d1) (to_text d2) (u_path n1) (u_path n2).
+        (to_text nb) (to_text (normalize nb)) (to_text nr) (to_text (normalize nr)) (to_text d1) (to_text d2) (u_path n1) (u_path n2) (u_query n1) (u_query n2).
 
 Theorem model_observation_satisfies_spec b d1 d2 f1 f2 :
   wf_base b -> wf_ref d1 \/ wf_base d1 -> wf_ref d2 \/ wf_base d2 ->
